@@ -95,7 +95,7 @@ for _p in ("C01", "C03", "C05", "C06", "C07", "C08", "C09", "C10", "C12", "C13",
 for _p, _x in (("C01", "io"), ("C01", "zst"), ("C03", "zst"), ("C09", "io"), ("C11", "io"), ("C11", "zst")):
     PLANS[_p]["quick"].append({"cfg": "dbg", "prof": _p + _x, "runs": 100_000})
     PLANS[_p]["thorough"] += [{"cfg": c, "prof": _p + _x, "runs": 4_000_000} for c in ("dbg", "rel")]
-for _p, _x in (("C02", "io"), ("C07", "zst"), ("C08", "zst"), ("C10", "io"), ("C06", "io"), ("C09", "zst"), ("C12", "zst"), ("C13", "zst"), ("C20", "io")):
+for _p, _x in (("C02", "io"), ("C07", "zst"), ("C08", "zst"), ("C10", "io"), ("C06", "io"), ("C06", "zst"), ("C09", "zst"), ("C12", "zst"), ("C13", "zst"), ("C20", "io")):
     PLANS[_p]["quick"].append({"cfg": "dbg", "prof": _p + _x, "runs": 100_000})
     PLANS[_p]["thorough"] += [{"cfg": c, "prof": _p + _x, "runs": 4_000_000} for c in ("dbg", "rel")]
 PLANS["C02"]["quick"].append({"cfg": "dbg", "prof": "C02zst", "runs": 100_000})
